@@ -518,6 +518,44 @@ func rulePanicInventory(c *Ctx, rule string, roots []*ssa.Function, pkgs []strin
 				ob.Exc("trusted (frozen table, keyed by the panic message " + msg + "): " + why)
 				return
 			}
+			// a helper that panics with a message it is handed: the messages are those its call sites pass
+			if mi, ok := p.X.(*ssa.MakeInterface); ok && msg == "" {
+				if prm, isParam := mi.X.(*ssa.Parameter); isParam {
+					idx := -1
+					for i, q := range fn.Params {
+						if q == prm {
+							idx = i
+						}
+					}
+					var msgs, whys []string
+					all := idx >= 0
+					ncall := 0
+					for caller := range c.allFns {
+						if !c.isRepoFn(caller) {
+							continue
+						}
+						for _, cl := range callsTo(caller, fn) {
+							ncall++
+							k, isConst := cl.Call.Args[idx].(*ssa.Const)
+							if !isConst || k.Value == nil {
+								all = false
+								continue
+							}
+							m := k.Value.ExactString()
+							if why, ok := trusted["msg:"+m]; ok {
+								msgs = append(msgs, m)
+								whys = append(whys, why)
+							} else {
+								all = false
+							}
+						}
+					}
+					if all && ncall > 0 {
+						ob.Exc("trusted (frozen table, keyed by the panic messages its callers pass: " + strings.Join(uniq(msgs), ", ") + "): " + strings.Join(uniq(whys), "; "))
+						return
+					}
+				}
+			}
 			if src := osErrorSource(p.X); src != "" {
 				ob.Exc("trusted: panics with the error returned by " + src + " - an operating-system / I-O failure, outside the property's quantifier (programs x contents)")
 				return
